@@ -110,8 +110,13 @@ def cal_el(cal, o: Opts):
         a["extrapolate"] = b(cal.extrapolate)
     pts = list(cal.points)
     if o.rng is not None and len(pts) > 1 and o.rng.random() < 0.5:
-        # the order of SplinePoint elements in the document carries no meaning
+        # the order of SplinePoint elements in the document carries no meaning - except among points sharing a raw value,
+        # where document order decides which one is met first: those keep their relative order
         o.rng.shuffle(pts)
+        queues = {}
+        for r, c in cal.points:
+            queues.setdefault(r, []).append((r, c))
+        pts = [queues[r].pop(0) for r, _ in pts]
     return E("SplineCalibrator", a, [E("SplinePoint", {"raw": num(r), "calibrated": num(c)}) for r, c in pts])
 
 
